@@ -211,6 +211,20 @@ class StrFold:
             if a0 is not None and a0[0] == "v" and a0[1] in ("Some", "Ok") and a0[2]:
                 return a0[2][0]
             return None
+        # ---- saturating / checked arithmetic on lengths and counts (the count is assumed not to go below zero: recorded as a precondition)
+        if m in ("saturating_sub", "wrapping_sub") and len(args) == 2 and "core::num::" in c and ev.as_lin(a0) is not None and ev.as_lin(args[1]) is not None:
+            r = ev.binop("-", a0, args[1])
+            if r[0] != "lit":
+                self.preconditions.append(r)
+            elif r[1] < 0 and m == "saturating_sub":
+                return ("lit", 0)
+            return r
+        if m in ("checked_sub",) and len(args) == 2 and "core::num::" in c and ev.as_lin(a0) is not None and ev.as_lin(args[1]) is not None:
+            r = ev.binop("-", a0, args[1])
+            if r[0] != "lit":
+                self.preconditions.append(r)
+                return SOME(r)
+            return SOME(r) if r[1] >= 0 else NONE
         # ---- iterators over pieces
         if a0 is not None and a0[0] == "pieces":
             if m == "next":
@@ -245,12 +259,62 @@ class StrFold:
             return None
         if m == "repeat" and len(args) == 2 and s0 is not None and len(s0[1]) == 1 and s0[1][0][0] == "c":
             return self.repeat(s0[1][0][1], args[1])
+        if a0 is not None and a0[0] == "charseq":
+            if m in ("all", "any") and len(args) == 2 and args[1][0] == "closure" and len(args[1]) == 4:
+                res = []
+                for it in a0[1]:
+                    el = ("lit", it[1]) if it[0] == "ch" else ("digitchar",)
+                    outs = list(ev.apply_closure(args[1], [el], s))
+                    if len(outs) != 1 or outs[0][1][0] != "bool":
+                        self.unknown.append("%s over characters: the predicate does not fold" % m)
+                        return None
+                    res.append(outs[0][1][1])
+                return mk_bool(all(res) if m == "all" else any(res))
+            if m == "count" and len(args) == 1:
+                return self.length(unflat(a0[1]))
+            if m in ("rev", "peekable", "by_ref") and len(args) == 1:
+                return ("charseq", list(reversed(a0[1])) if m == "rev" else a0[1])
+            if m == "next" and ev.recv_local:
+                if a0[1] and a0[1][0][0] == "ch":
+                    return {"env": {ev.recv_local: ("charseq", a0[1][1:])}, "val": SOME(("lit", a0[1][0][1]))}
+                if not a0[1]:
+                    return NONE
+                return None
+        if a0 is not None and (a0 == ("digitchar",) or (a0[0] == "lit" and isinstance(a0[1], str) and len(a0[1]) == 1)) and len(args) == 1 and ("char" in c or "u8" in c):
+            ch = None if a0 == ("digitchar",) else a0[1]
+            pred = {"is_ascii_digit": lambda x: x.isdigit() and x.isascii(), "is_numeric": lambda x: x.isdigit(), "is_ascii_alphabetic": lambda x: x.isalpha() and x.isascii(),
+                    "is_alphabetic": lambda x: x.isalpha(), "is_whitespace": lambda x: x.isspace(), "is_ascii_whitespace": lambda x: x.isspace(),
+                    "is_ascii_punctuation": lambda x: x.isascii() and not x.isalnum() and not x.isspace(), "is_alphanumeric": lambda x: x.isalnum(), "is_ascii_alphanumeric": lambda x: x.isalnum() and x.isascii()}.get(m)
+            if pred is not None:
+                return mk_bool(pred(ch if ch is not None else "7"))
         if s0 is None:
             return None
         if not (("str" in c) or ("String" in c) or ("string" in c)):
             return None
         pat = args[1][1] if len(args) > 1 and isinstance(args[1], tuple) and args[1][0] == "lit" and isinstance(args[1][1], str) else None
         items = flat(s0[1])
+        # ---- fully literal text: the operation is computed on the text itself
+        if all(a[0] in ("c", "sgn") for a in s0[1]):
+            txt = "".join(text_of(a) for a in s0[1])
+            if pat is not None and len(args) == 2:
+                conc = {"trim_start_matches": lambda: txt.lstrip(pat) if len(pat) == 1 else None, "trim_end_matches": lambda: txt.rstrip(pat) if len(pat) == 1 else None,
+                        "contains": lambda: pat in txt, "starts_with": lambda: txt.startswith(pat), "ends_with": lambda: txt.endswith(pat),
+                        "strip_suffix": lambda: (SOME(mk([("c", txt[:-len(pat)])])) if txt.endswith(pat) else NONE)}.get(m)
+                if conc is not None:
+                    r = conc()
+                    if isinstance(r, bool):
+                        return mk_bool(r)
+                    if isinstance(r, str):
+                        return mk([("c", r)])
+                    if r is not None:
+                        return r
+            if len(args) == 1:
+                conc = {"trim": lambda: txt.strip(), "trim_start": lambda: txt.lstrip(), "trim_end": lambda: txt.rstrip(), "to_lowercase": lambda: txt.lower(), "to_uppercase": lambda: txt.upper()}.get(m)
+                if conc is not None:
+                    return mk([("c", conc())])
+        # ---- characters
+        if m in ("bytes", "chars") and len(args) == 1:
+            return ("charseq", items)
         # ---- queries
         if m == "len" and len(args) == 1:
             return self.length(s0)
